@@ -10,7 +10,9 @@ CHECKS = {
         '(exclusion, FIFO, upgrade truthfulness, deadlock-freedom = no lost hand-off) for 2-4 threads; every transition of the spin/queuing '
         'state graphs is replayed on the real lock objects under a cooperative scheduler with the state words compared after each step; '
         'property-level events of all replayed executions and of seeded random cooperative schedules over all eight lock types are validated by '
-        'TLC against the abstract RWLockAbs machine. Exhaustive within the stated programs; sampled beyond them.',
+        'TLC against the abstract RWLockAbs machine (every operation of a lock program ends in a schedule point, so a held lock spans at least one step). The lost-hand-off clause under TSO for the sleeping '
+        'locks: Monitor instantiated without a notifier fence and with the fact that the releasing write of tbb::mutex::unlock / rw_mutex::unlock / unlock_shared / downgrade is a full operation, probed '
+        'from the access sequence of the real calls. Exhaustive within the stated programs; sampled beyond them.',
    note='sequentially consistent replay at one-atomic-access granularity on x86; TSO store-buffer effects only at model level; RTM locks in fall-back mode; futex semantics emulated',
    technique='TLA+/PlusCal protocol specs checked by TLC + edge-complete replay into the real locks + TLC trace validation against RWLockAbs',
    design='4 (C08)'),
@@ -123,7 +125,8 @@ CHECKS['C01'] = dict(
         '(head, tail, lock word) compared after every step (zero drift on the current tree), and the Spawn/Got events are validated by TLC (no task returned twice, none lost). '
         'Integrated scenarios (nested groups, tasks that submit tasks to the waited group, enqueued and deferred task handles, run_and_wait, execute) on 2-4 logical threads of '
         'all-reserved arenas under seeded random / PCT cooperative schedules over every scheduler atomic are validated by TLC against SchedAbs (exactly once; the wait covers all work '
-        'and sees its writes).',
+        'and sees its writes). PoolState is instantiated with facts probed from the running code (a publisher aborts a clear transaction of the arena state in flight; an aborted '
+        'transaction fails - CLEAR_CHECKED): with a fact that differs TLC\'s counterexample (an enqueued task is lost) is the verdict.',
    note='edge-complete replay for the TaskPool / TaskPoolIso instances; Mailbox / WaitTree / PoolState are bound to the code through the integrated scenarios only (TaskStream is replayed under C02); interleavings needing >4 threads are not explored',
    technique='function transcription checked by TLC and replayed transition-complete on the real batch handler (TLC trace validation of the real outcomes) + PlusCal protocol specs checked by TLC, edge-complete replay into the real arena_slot, TLC trace validation against SchedAbs',
    design='4 (C01), 8')
@@ -153,7 +156,9 @@ CHECKS['C02'] = dict(
    text='TLC model-checks ExecSlot (task_arena::execute without a free slot: delegated functor, exit monitor, the three notifications - of the task\'s finalize, of a leaving thread, and the baton of a caller that leaves the wait loop without entering; 3-4 callers, 1-2 slots, functors that wait inside or stay inside: no reachable state in which a caller can never return, every caller returns under weak fairness, each functor runs once; vacuity controls show that each notification is needed) with the fact BATON extracted from the running code by a DIRECTED cooperative schedule that builds the critical state of TLC\'s counterexample on a real arena (probe_exec); the other two notifications are exercised by the scenarios execstay / exec2xNH. TLC model-checks Monitor (concurrent_monitor prepare_wait / commit_wait / cancel_wait against notify, the futex semaphore word 0/1/2 and the monitor mutex) '
         'under sequential consistency and under x86-TSO with the client store buffered, for 1-2 sleepers x 1-2 notifiers, plus termination of every sleeper under '
         'weak fairness; the full fences the protocol relies on are facts observed on the running code (hook stream of prepare_wait / notify_one / notify_all) and fed '
-        'into the TSO model, a model without the notifier fence is the vacuity control; PoolState (advertise_new_work vs out_of_work, busy state) and Demand '
+        'into the TSO model, a model without the notifier fence is the vacuity control; the same model is instantiated for the sleepers of tbb::mutex / tbb::rw_mutex (notify_*_relaxed: no notifier fence, '
+        'the releasing write of unlock / unlock_shared / downgrade must be a full operation - fact probed from the access sequence of the real calls); PoolState (advertise_new_work vs out_of_work, busy state, '
+        'facts: unique busy marker, publishers abort a clear transaction, an aborted transaction fails) and Demand '
         '(thread_request_serializer pending-delta aggregator: no lost delta, estimate = min(limit, total)); TaskStream (the container of enqueued tasks: lanes under try-locked '
         'mutexes and the population mask; no task handed out twice, none stranded in an unadvertised lane) of which every edge (298 k) is replayed on the real task_stream with the '
         'population word and the lane mutex flags compared after every step. Real blocking calls - raw concurrent_monitor '
@@ -186,7 +191,7 @@ CHECKS['C14'] = dict(
         'concurrency limit, and not after an exception has surfaced; a put that was reported as rejected was not processed; wait_for_all returns only when no body runs '
         'and, in a loss-less graph, everything offered to every body node has been processed. Real graphs (three-node function chains with unlimited / serial / limit-2 / '
         'lightweight / rejecting nodes, broadcast fan-out with a second external source, a throwing body followed by a second wait and graph::reset, an input_node '
-        'source, an async_node completed through its gateway from a thread outside the arena under reserve_wait / release_wait, a limiter feedback cycle) are built on '
+        'source, an async_node completed through its gateway from a thread outside the arena under reserve_wait / release_wait, a limiter feedback cycle, reservations released on buffering nodes with and without an accepting push successor, a reserving join) are built on '
         'logical threads of an all-reserved arena - 2-3 external putters plus one thread that executes graph tasks from the start - and run under seeded random and PCT-style priority cooperative '
         'schedules over every atomic of the graph and the scheduler; the body / put / wait events are validated by TLC (TraceFlow).',
    note='topologies are a fixed catalogue (not randomised); schedules sampled; multifunction and continue nodes are not driven; no protocol model of function_input / edge switching yet (trace validation only)',
@@ -217,7 +222,8 @@ CHECKS['C17'] = dict(
         'seeded random sequences of scalable_malloc / calloc / realloc / aligned_malloc / aligned_realloc / posix_memalign / free / msize / allocation commands (sizes on every class '
         'boundary up to 8.5 MB, alignments to 1 MiB, frees by other threads, a thread that exits early with live blocks) on 1-4 logical threads under random / PCT cooperative schedules '
         'are validated by TLC against the size-class properties and HeapAbs (returned block overlaps no live block, alignment, msize, calloc zero, realloc prefix, fill pattern intact, '
-        'reuse only after the free call began).',
+        'reuse only after the free call began); the top of the size range (sizes, products and alignments that cannot be represented, incl. the family calloc(a, b) whose product wraps to a small value) '
+        'must be refused (PoolAbs).',
    note='API sequences and schedules sampled; the SlabBlock model is bound to the code through the abstract histories only (no step replay); metadata overlap is visible only through fill patterns; addresses are compared as order-preserving ranks',
    technique='LifoList protocol model replayed edge-complete on the real list + TLA+ function specification + PlusCal protocol model checked by TLC + TLC trace validation of recorded executions of the real allocator against HeapAbs',
    design='4 (C17)')
